@@ -462,3 +462,32 @@ Lemma multisig_threshold_min : forall point_ok verify_ecdsa keyhash m n keys sig
 Proof.
   intros po ve kh. exact (multisig_threshold (fun x => x) po ve (fun _ _ _ => false) kh).
 Qed.
+
+(* ---------------------------------------------------------------- exemptions *)
+
+Lemma all_exemptions_justified_spec : forall rows facts,
+  all_exemptions_justified rows facts = true ->
+  forall ty v, 0 <= ty < 256 -> 0 <= v < 256 -> exempt rows ty v = true -> justified facts ty v = true.
+Proof.
+  intros rows facts H ty v Hty Hv He. unfold all_exemptions_justified in H.
+  rewrite forallb_forall in H.
+  assert (Hin : forall x, 0 <= x < 256 -> In x (map Z.of_nat (seq 0 256))).
+  { intros x Hx. apply in_map_iff. exists (Z.to_nat x). split; [lia|]. apply in_seq. lia. }
+  specialize (H ty (Hin ty Hty)). rewrite forallb_forall in H. specialize (H v (Hin v Hv)).
+  rewrite He in H. exact H.
+Qed.
+
+Lemma typed_transaction_sound :
+  forall codehash point_ok verify_ecdsa verify_schnorr keyhash rows facts ty v data refs attrs ps,
+  all_exemptions_justified rows facts = true -> 0 <= ty < 256 -> 0 <= v < 256 ->
+  check_tx_signature_typed codehash point_ok verify_ecdsa verify_schnorr keyhash rows ty v data refs attrs ps = true ->
+  justified facts ty v = true \/
+  forall h, In h refs \/ In (32, h) attrs -> negb (prefix_of h =? 75) = true ->
+    exists cp, In cp ps /\ tl h = codehash (fst cp) /\
+               authorised verify_ecdsa verify_schnorr data (fst cp) (snd cp).
+Proof.
+  intros ch po ve vs kh rows facts ty v data refs attrs ps Hall Hty Hv H.
+  unfold check_tx_signature_typed in H. destruct (exempt rows ty v) eqn:E.
+  - left. eapply all_exemptions_justified_spec; eauto.
+  - right. intros h Hh Hp. eapply check_tx_signature_sound_b; eauto.
+Qed.
